@@ -459,13 +459,13 @@ Local Open Scope N_scope.
 """
 
 
-def evaluate(ctx, pcases, ucases, name="cases"):
+def evaluate(ctx, pcases, ucases, name="cases", fixed=False):
     defs = "Definition pcases : list pcase := [\n%s\n].\n" % ";\n".join(c_pcase(c) for c in pcases)
     defs += "Definition ucases : list ucase := [\n%s\n].\n" % ";\n".join(c_ucase(c) for c in ucases)
     res = coq.run_cases(ctx, name, PRE, defs, [
         ("p_mismatch", "bad_indices p_agrees pcases 0"),
         ("p_violations", "bad_indices p_ok pcases 0"),
-        ("u_mismatch", "bad_indices u_agrees ucases 0"),
+        ("u_mismatch", "bad_indices (u_agrees %s) ucases 0" % cbool(fixed)),
         ("u_violations", "bad_indices u_ok ucases 0"),
     ])
     if res is None:
@@ -626,10 +626,12 @@ def run(ctx):
                       tuple(c["syms"]), tuple(c["targets"]), c["funcs"], c["ptype"]), nontrivial=nt,
                  tags=["update:" + t for t in set(c["tags"])] + ["update:fatal" if c["impl"]["fatal"] else "update:ran"],
                  sample=smp, size=len(c["before"]))
-    res = evaluate(ctx, pcases, ucases + [wit])
+    legacy = wit["impl"]["fatal"]
+    ctx.c14_fixed = not legacy
+    ctx.extra["trampoline_page_variant"] = "as found (pr_err)" if legacy else "repaired (returns -1)"
+    res = evaluate(ctx, pcases, ucases + [wit], fixed=not legacy)
     if res is not None:
         wi = len(ucases)
-        legacy = wit["impl"]["fatal"]
         ctx.case(key=("witness", KNOWN_KEY), tags=["update:witness-trampoline-page-occupied"])
         if wi in res["u_violations"]:
             res["u_violations"].remove(wi)
@@ -639,8 +641,11 @@ def run(ctx):
             if ctx.kf.listed("C14", KNOWN_KEY):
                 ctx.known_finding(KNOWN_KEY, txt, legacy, {"mode": "update", "case": case_json(wit),
                                                            "implementation": impl_json(wit)})
-            else:
+            elif legacy:
                 ctx.log("DEFECT-CANDIDATE (reported, not listed in known-findings.txt): key=%s %s" % (KNOWN_KEY, txt))
+            else:
+                ctx.log("trampoline-page witness: the module is left unpatched and the process keeps running "
+                        "(repaired variant of mcount_setup_trampoline)")
             ctx.extra["defect_witness_still_fails"] = {KNOWN_KEY: bool(legacy)}
         verdict_inproc(ctx, pcases, ucases + [wit], res)
     from props import c14_e2e
@@ -652,6 +657,9 @@ def replay(ctx, obj):
     objdir, h = setup(ctx)
     mode = obj.get("mode")
     c = dict(obj.get("case") or {})
+    wit = detect_variant(ctx, h)
+    fixed = not wit["impl"]["fatal"]
+    ctx.c14_fixed = fixed
     if mode == "e2e":
         from props import c14_e2e
         c14_e2e.replay(ctx, objdir, h, obj)
@@ -672,7 +680,7 @@ def replay(ctx, obj):
         c["before"] = bytes.fromhex(c["before"])
         c["syms"] = [tuple(s) for s in c["syms"]]
         run_inproc(ctx, h, [], [c])
-        res = evaluate(ctx, [], [c])
+        res = evaluate(ctx, [], [c], fixed=fixed)
         ctx.case(key="replay", sample={"case": case_json(c), "implementation": impl_json(c)})
         ctx.log("replayed:", impl_json(c))
         verdict_inproc(ctx, [], [c], res)
